@@ -62,7 +62,11 @@ def tamper_variants(st, tier, rng):
             # the frame is cut short but its header still announces the old length: the following bytes are swallowed
             g = noisecases.poison_frame(fr[i], real[:k])
             g["sym"] = list(real[:3]) + [noisesim.SYM_POISON] * (k - 3)
-            out.append((f"trunc:{i}:{k}", fr[:i] + [g] + fr[i + 1:], i, {"invalid_key", "incomplete", "bad_marker"}))
+            # (when the swallowed bytes happen to equal the bytes cut off - one chance in 256 for a one-byte cut - this very frame still
+            # is what the device sent and the stream first deviates in the next frame)
+            nxt = b"".join(x["real"] for x in fr[i + 1:])
+            dev = i + 1 if (nxt and real[:k] + nxt[:len(real) - k] == real) else i
+            out.append((f"trunc:{i}:{k}", fr[:i] + [g] + fr[i + 1:], dev, {"invalid_key", "incomplete", "bad_marker"}))
     return out
 
 
